@@ -97,5 +97,33 @@ def main(base_seed, n=50, batches=4):
                     if x != y:
                         print(f"  first difference: batch seed {k} example {i}: {x} vs {y}")
                         break
+    # worker-count independence: the same check with 1 and with 16 workers must explore
+    # exactly the same cases and make exactly the same decisions
+    import shutil
+    import tempfile
+
+    for pid in ("C16", "C19", "C13"):
+        cov = []
+        for workers in ("1", "16"):
+            scratch = tempfile.mkdtemp(prefix="selftest.")
+            try:
+                env = dict(os.environ, PYTHONHASHSEED="0", VERIF_WORKERS=workers,
+                           VERIF_MAX_BATCHES="6", VERIF_SCRATCH_OUT=scratch,
+                           VERIF_SEED=str(base_seed))
+                proc = subprocess.run([sys.executable, os.path.join(VERIF, "run_check.py"), pid],
+                                      capture_output=True, text=True, env=env, timeout=1800)
+                with open(os.path.join(scratch, "evidence", f"{pid}.json")) as handle:
+                    c = json.load(handle)["coverage"]
+                cov.append({k: c[k] for k in ("evaluations", "distinct_nontrivial",
+                                              "oracle_comparisons", "order_decisions",
+                                              "order_decisions_permuted", "probes",
+                                              "fault_kinds_fired")} | {"exit": proc.returncode})
+            finally:
+                shutil.rmtree(scratch, ignore_errors=True)
+        same = cov[0] == cov[1]
+        print(f"selftest {pid}: 1 worker vs 16 workers, 6 batches: "
+              f"{'identical coverage' if same else 'DIFFERENT: %r vs %r' % (cov[0], cov[1])}")
+        if not same:
+            status = 2
     print(f"selftest: {total} runs compared, status {status}")
     return status
